@@ -333,6 +333,18 @@ def norm_val(x):
     return str(x)
 
 
+def norm_case(x):
+    """failure case value; the rendered text of an exception raised inside a check is message text (outside the claim)"""
+    x = norm_val(x)
+    if isinstance(x, str):
+        import re as _re
+
+        m = _re.match(r"^([A-Za-z_][A-Za-z0-9_]*(Error|Exception|Injected))\(", x)
+        if m:
+            return m.group(1) + "(...)"
+    return x
+
+
 def norm_idx(x):
     """row label of a failure case; MultiIndex labels are rendered tuples (text is outside the claim: compare numerically)"""
     x = norm_val(x)
@@ -381,12 +393,12 @@ def fc_rows_shim(fc, vals: Vals):
         if _evv(vals, p):
             g = lambda k: None if _evv(vals, cols[k].nulls[r]) else norm_val(_evv(vals, cols[k].vals[r]))  # noqa: E731
             rows.append((str(cols["schema_context"].vals[r]), str(cols["column"].vals[r]), str(cols["check"].vals[r]).split("(")[0],
-                         norm_idx(g("index")), g("failure_case")))
+                         norm_idx(g("index")), norm_case(g("failure_case"))))
     return sorted(rows, key=repr)
 
 
 def fc_rows_real(fc):
-    return sorted(((str(r.schema_context), str(r.column), str(r.check).split("(")[0], norm_idx(r["index"]), norm_val(r.failure_case))
+    return sorted(((str(r.schema_context), str(r.column), str(r.check).split("(")[0], norm_idx(r["index"]), norm_case(r.failure_case))
                    for _, r in fc.iterrows()), key=repr)
 
 
